@@ -9,10 +9,10 @@ def run(tier):
     run = runner.Run(PID, tier, 'model_checking',
                      'every generated form program of the tier bound x every input environment x every relevant rank '
                      'permutation, executed on the real Solver (E2a); plus every return within d deviations of the base '
-                     'returns of 2021-2023 (E3 prompt tree; quick d<=1 on 5 bases/year, thorough d<=2 on all); '
+                     'returns of 2021-2023 (E3 prompt tree; quick d<=1 on 3 bases/year, d=0 on the others, thorough d<=2 on all); '
                      'distinct = outcome classes observed per engine/base')
     gen.explore(run, PID, tier)
-    e3.explore_all(run, PID, tier)
+    e3.explore_all(run, PID, tier, quick_bases=('B0-single-wage', 'B2-investor', 'B6-nc'))
     return run.finish()
 
 
